@@ -249,6 +249,90 @@ def contended_scn(sx, op):
     return dict(result=C.describe(st, v), log=log)
 
 
+# ----------------------------------------------------------------------------
+# interrupted: KeyboardInterrupt arrives while an entry point sleeps; if the
+# entry point has given up the lock for the pause, another thread has taken it
+# ----------------------------------------------------------------------------
+INTERRUPT_OPS = ["sense", "connect-rdwr"]
+
+
+def interrupt_scn(sx, op):
+    """Every time.sleep() of the entry point is a point where (a) another
+    thread takes clf.lock if the entry point does not hold it, and (b) a
+    KeyboardInterrupt may arrive.  Whatever the entry point does on its way
+    out, it may only release a lock it holds: the other thread is inside a
+    driver call and must stay the owner; no driver method is entered while it
+    is; the lock is not left held by the entry point."""
+    from symx.envpatch import CLOCK
+    log, bad = [], []
+    tr = Trace()
+    envo = SlotEnv(sx, tr)
+    dev = RecDevice(sx, envo, tr)
+    dev.hook = make_hook(sx, log, bad)
+    clf = make_frontend(dev)
+    guard = clf.guard_lock
+    st = dict(n=0, interrupted=False, other_holds=False)
+    real_sleep = CLOCK.sleep
+
+    def sleep(d):
+        st['n'] += 1
+        took = False
+        if not guard.locked():
+            guard.hold_as_other()
+            took = True
+            sx.reach("interrupt:lock-free-during-sleep")
+        what = "continue"
+        if st['n'] <= 3 and not st['interrupted']:
+            what = sx.pick("sleep%d" % st['n'], ["continue", "interrupt"])
+        real_sleep(d)
+        if what == "interrupt":
+            st['interrupted'] = True
+            st['other_holds'] = took
+            raise KeyboardInterrupt()
+        if took:
+            guard.release_other()
+    CLOCK.sleep = sleep
+    dev.entry = op
+    try:
+        if op == "sense":
+            args = [C.mk_target(sx, "A"), C.mk_target(sx, "F")]
+            envo.program(args, ["ok", "ok"], None, lambda t: C.mk_response(sx, "A"))
+            status, v = C.call(clf.sense, *args, iterations=3, interval=0.5)
+        elif op == "connect-rdwr":
+            polls = [0]
+
+            def terminate():
+                polls[0] += 1
+                return polls[0] > 4
+            status, v = C.call(clf.connect, rdwr={'targets': ['106A'], 'iterations': 2,
+                                                  'interval': 0.3},
+                               terminate=terminate)
+        else:
+            raise ValueError(op)
+    finally:
+        CLOCK.sleep = real_sleep
+    if st['n']:
+        sx.reach("interrupt:%s:slept" % op)
+    if st['interrupted']:
+        sx.reach("interrupt:%s:interrupted" % op)
+    if st['other_holds']:
+        if not guard.locked() or guard.owner != "other":
+            bad.append("lock-of-other-thread-released-by:" + op)
+        guard.release_other()
+    if status == "limit" and isinstance(v, WouldBlock):
+        # (the entry point waits for the lock the other thread holds: fine)
+        guard.release_other()
+    if clf.lock.locked():
+        bad.append("lock-left-held-after:" + op)
+    if lock_replaced(clf):
+        bad.append("frontend-lock-replaced:" + op)
+    if bad:
+        sx.check(False, bad[sx.pick("report", list(range(len(bad))))])
+    else:
+        sx.check(True, "lock discipline kept")
+    return dict(result=C.describe(status, v), sleeps=st['n'], log=log)
+
+
 def sense_scn(sx, **params):
     return run(sx, "sense_scn", **params)
 
@@ -287,6 +371,8 @@ def partitions(tier):
     for op in CONTENDED_OPS:
         parts.append(dict(name="contended:" + op, fn="contended_scn",
                           params=dict(op=op)))
+    for op in INTERRUPT_OPS:
+        parts.append(dict(name="interrupted:" + op, fn="interrupt_scn", params=dict(op=op)))
     g = 8 if tier == "thorough" else 6
     for name, params in (
             ("rdwr", dict(modes=["rdwr"], env="t2", targets=["106A"],
@@ -309,7 +395,8 @@ MUST_REACH = [d[0] for d in DIRECT] + [i[0] for i in INDIRECT] + \
     ["entry:" + s for s in ("connect_scn", "sense_scn", "listen_scn",
                             "stale_scn", "lifecycle_scn")] + \
     ["contended:%s:waits" % op for op in CONTENDED_OPS] + \
-    ["contended:connect:waits-for-lock"]
+    ["contended:connect:waits-for-lock"] + \
+    ["interrupt:%s:%s" % (op, w) for op in INTERRUPT_OPS for w in ("slept", "interrupted")]
 
 BOUNDS = {
     "quick": "every driver call on every path of the C18 scenarios (quick "
@@ -336,7 +423,13 @@ BOUNDS = {
              "other thread always holds that original object; open() of an "
              "open and of a closed frontend are among the contended entry "
              "points.  Call sites are named by function/method/ordinal, not "
-             "by line",
+             "by line.  INTERRUPTED family: in sense(iterations=3) and "
+             "connect(rdwr) every time.sleep() of the entry point is a point "
+             "where another thread takes the lock if the entry point has let "
+             "go of it and where KeyboardInterrupt may arrive (first three "
+             "sleeps): the entry point releases only a lock it holds, enters "
+             "no driver method while the other thread owns the lock, leaves "
+             "no lock held",
     "thorough": "as quick with the thorough bounds of harness/c18_connect.py",
 }
 OUTSIDE = [
